@@ -1,6 +1,6 @@
 import TongoModel.Outcome
 import TongoModel.Shard
-import TongoModel.Prim.Crc16
+import TongoModel.Prim.Crc16Fast
 import TongoModel.Prim.Base64
 import TongoModel.Prim.Base32
 /-! Account addresses in all their forms (ton/account.go, liteclient/adnl.go), hand model mirroring the Go control flow.
@@ -144,6 +144,21 @@ def parseAccountID (s : Str) : Outcome AccountID :=
   | .ok a => .ok a
   | _ => fromBase64Url s
 
+/-! ### root package: tongo.ParseAddress (account.go) -/
+
+/-- `addressParser.ParseAddress` for strings that do not reach the DNS resolver: raw form first (bounceable), then the
+friendly form read from whatever bytes `base64.URLEncoding.DecodeString` returned — the decoding error is IGNORED, so a
+valid 48-character string followed by garbage is accepted —, 36 bytes, checksum; `Bounce` = tag bit 0x40 clear. Anything
+else without a `.` is an error; with a `.` the resolver is asked (outside the model: `err "dns"`). Result `(id, bounce)`. -/
+def parseAddress (s : Str) : Outcome (AccountID × Bool) :=
+  match fromRaw s with
+  | .ok a => .ok (a, true)
+  | _ =>
+    let b := (Base64.decodeP true (s.map mapStd)).1
+    if b.length = 36 ∧ be16 (Crc16.crc16 (b.take 34)) = b.drop 34 then
+      .ok (⟨(b.getD 1 0).signExtend 32, (b.drop 2).take 32⟩, (b.getD 0 0) &&& 0x40#8 == 0#8)
+    else if s.contains 46#8 then .err "dns" else .err "can't decode address"
+
 /-! ### JSON -/
 
 /-- MarshalJSON: the raw form as a JSON string (it contains only `-0-9a-f:`; nothing to escape) -/
@@ -181,9 +196,9 @@ def fromTL (b : List Byte) : Outcome AccountID :=
 /-- tlb.MsgAddress as far as account ids are concerned -/
 inductive MsgAddress where
   | none
-  | extern
+  | extern (bits : List Bool)                                                          -- *boc.BitString, non-nil
   | std (anycast : Option (BitVec 32 × BitVec 32)) (wc : BitVec 8) (addr : List Byte)  -- anycast = (depth, rewrite_pfx)
-  | var
+  | var (anycast : Option (BitVec 32 × BitVec 32)) (len : BitVec 16) (wc : BitVec 32) (bits : List Bool)  -- AddrLen Uint9
   deriving DecidableEq, Repr
 
 /-- (*AccountID).ToMsgAddress for a non-nil receiver: `int8(Workchain)` TRUNCATES the int32 -/
@@ -198,19 +213,23 @@ def rewriteAddr (addr : List Byte) (depth pfx : BitVec 32) : List Byte :=
 /-- ton.AccountIDFromTlb: `ok none` is the Go `(nil, nil)` -/
 def fromTlb (m : MsgAddress) : Outcome (Option AccountID) :=
   match m with
-  | .none | .extern => .ok Option.none
+  | .none | .extern _ => .ok Option.none
   | .std ac wc addr =>
     let addr := match ac with
       | Option.none => addr
       | some (d, p) => rewriteAddr addr d p
     .ok (some ⟨wc.signExtend 32, addr⟩)
-  | .var => .err "can not convert not std address to AccountId"
+  | .var _ _ _ _ => .err "can not convert not std address to AccountId"
 
 /-- bits of a value, most significant first -/
 def bitsMsb {n : Nat} (v : BitVec n) : List Bool := (List.range n).map (fun i => v.getMsbD i)
 
 /-- the TL-B serialisation `addr_std$10 anycast:(Maybe Anycast) workchain_id:int8 address:bits256` (and `addr_none$00`);
 anycast `depth:(#<= 30)` is 5 bits followed by `depth` bits of rewrite_pfx -/
+def anycastBits : Option (BitVec 32 × BitVec 32) → List Bool
+  | Option.none => [false]
+  | some (d, p) => true :: bitsMsb (d.setWidth 5) ++ (bitsMsb p).drop (32 - d.toNat)
+
 def tlbBits : MsgAddress → Option (List Bool)
   | .none => some [false, false]
   | .std ac wc addr =>
@@ -218,7 +237,14 @@ def tlbBits : MsgAddress → Option (List Bool)
       | Option.none => [false]
       | some (d, p) => true :: bitsMsb (d.setWidth 5) ++ (bitsMsb p).drop (32 - d.toNat)
     some ([true, false] ++ acb ++ bitsMsb wc ++ addr.flatMap bitsMsb)
-  | _ => Option.none
+  | .extern bits =>
+    -- addr_extern$01 len:(## 9) external_address:(bits len); MarshalTLB refuses more than 511 bits
+    if bits.length > 511 then Option.none
+    else some ([false, true] ++ bitsMsb (BitVec.ofNat 9 bits.length) ++ bits)
+  | .var ac len wc bits =>
+    -- addr_var$11 anycast addr_len:(## 9) workchain_id:int32 address:(bits addr_len): Go writes the low 9 bits of the
+    -- AddrLen FIELD and then all bits of Address, whatever their number
+    some ([true, true] ++ anycastBits ac ++ bitsMsb (len.setWidth 9) ++ bitsMsb wc ++ bits)
 
 def natOfBits (bs : List Bool) : Nat := bs.foldl (fun a b => 2 * a + (if b then 1 else 0)) 0
 
@@ -226,8 +252,21 @@ def bytesOfBits : Nat → List Bool → List Byte
   | 0, _ => []
   | n + 1, bs => BitVec.ofNat 8 (natOfBits (bs.take 8)) :: bytesOfBits n (bs.drop 8)
 
-/-- MsgAddress.UnmarshalTLB on the bits of a cell, for the constructors addr_none and addr_std (others: `err` here,
-they are the business of the TL-B properties) -/
+/-- `Maybe Anycast` at the head of a bit string: the value and the rest -/
+def parseAnycastBits (r : List Bool) : Outcome (Option (BitVec 32 × BitVec 32) × List Bool) :=
+  match r with
+  | [] => .err "eof"
+  | false :: r => .ok (Option.none, r)
+  | true :: r =>
+    if r.length < 5 then .err "eof" else
+    let d := natOfBits (r.take 5)
+    if d < 1 then .err "invalid anycast depth" else
+    let r := r.drop 5
+    if r.length < d then .err "eof" else
+    .ok (some (BitVec.ofNat 32 d, BitVec.ofNat 32 (natOfBits (r.take d))), r.drop d)
+
+/-- MsgAddress.UnmarshalTLB on the bits of a cell (all four constructors; the layout is proved equal to the TL-B
+schema spec of the TL-B slice, `Tongo.Tlb.specMsgAddress`, in TongoProofs/Lemmas/AddrTlbSpec.lean) -/
 def parseTlbBits (bs : List Bool) : Outcome MsgAddress :=
   match bs with
   | false :: false :: _ => .ok .none
@@ -247,7 +286,26 @@ def parseTlbBits (bs : List Bool) : Outcome MsgAddress :=
       let r := r.drop d
       if r.length < 264 then .err "eof"
       else .ok (.std (some (BitVec.ofNat 32 d, BitVec.ofNat 32 p)) (BitVec.ofNat 8 (natOfBits (r.take 8))) (bytesOfBits 32 (r.drop 8)))
-  | _ => .err "other constructor"
+  | false :: true :: rest =>
+    -- addr_extern: 9-bit length, then that many bits
+    if rest.length < 9 then .err "eof" else
+    let ln := natOfBits (rest.take 9)
+    let r := rest.drop 9
+    if r.length < ln then .err "eof" else .ok (.extern (r.take ln))
+  | true :: true :: rest =>
+    -- addr_var: Maybe Anycast, 9-bit length, int32 workchain, that many bits
+    match parseAnycastBits rest with
+    | .err e => .err e
+    | .panic p => .panic p
+    | .ok (ac, r) =>
+      if r.length < 9 then .err "eof" else
+      let ln := natOfBits (r.take 9)
+      let r := r.drop 9
+      if r.length < 32 then .err "eof" else
+      let wc := BitVec.ofNat 32 (natOfBits (r.take 32))
+      let r := r.drop 32
+      if r.length < ln then .err "eof" else .ok (.var ac (BitVec.ofNat 16 ln) wc (r.take ln))
+  | _ => .err "eof"
 
 /-! ### ADNL address, base32 form -/
 
